@@ -33,14 +33,14 @@ Proof. exact Proofs.guard_needed_refuted. Qed.
     strictly decreases the rank, i.e. every cycle of the descent passes through a guarded function *)
 Theorem graph_guards_every_cycle :
   ranks_decrease (guarded_of funs) (rank_of funs) edges = true.
-Proof. vm_compute. reflexivity. Qed.
+Proof. exact Proofs.graph_guards_every_cycle. Qed.
 
 (** every run of the guarded descent (any call tree over the regenerated graph that respects the
     guard) keeps at most (LIMIT + 1) * (K + 1) frames on the stack *)
 Theorem stack_frames_bounded : forall t : ctree,
   respects LIMIT (guarded_of funs) (edge_of edges) 0 t = true ->
   frames t <= S LIMIT * S (K_of funs).
-Proof. exact (Proofs.graph_frames_bounded LIMIT funs edges graph_guards_every_cycle). Qed.
+Proof. exact Proofs.stack_frames_bounded. Qed.
 
 (** the code before the guard: without guarded functions the frames are unbounded *)
 Theorem stack_unbounded_without_guard : forall LIMIT B, exists t,
